@@ -31,48 +31,57 @@ TR = 'outrank.task_ranking'
 
 
 def run(repo, chk, tier):
-    fn, loop, pcall = streaming_loop(repo)
+    from .common import stream_model
+    from ..terms import walk_term
+    S = stream_model(repo)
+    fn, loop, pcall = S.fn, S.loop, S.pcall
     m = fn.module
     cfg = CFG(fn.node)
     par = parents(fn.node)
-    args = 'args'
+    args = S.args
     E = lambda s: expected_term(m, s)
 
     # -- 1 header and counter
-    stream = loop.iter.id if isinstance(loop.iter, ast.Name) else None
+    stream = S.stream.id if isinstance(S.stream, ast.Name) else None
     rl = [c for c in calls(fn, attr=('readline', 'readlines', '__next__')) if isinstance(c.func.value, ast.Name) and c.func.value.id == stream]
     nexts = [c for c in calls(fn, name='next') if c.args and isinstance(c.args[0], ast.Name) and c.args[0].id == stream]
     before = [c for c in rl + nexts if c.lineno < loop.lineno and not any(x is c for x in ast.walk(loop))]
     inside = [c for c in rl + nexts if any(x is c for x in ast.walk(loop))]
     cond_before = [c for c in before if _conditional(c, par, fn.node)]
-    chk.expect(stream is not None and len(before) == 1 and not inside and not cond_before and before[0].func.attr == 'readline' if before and isinstance(before[0].func, ast.Attribute) else False, 'C08.1a', 'R1', fn.site(before[0]) if before else fn.site(loop),
+    one_line = bool(before) and ((isinstance(before[0].func, ast.Attribute) and before[0].func.attr in ('readline', '__next__')) or (isinstance(before[0].func, ast.Name) and before[0].func.id == 'next'))
+    chk.expect(stream is not None and len(before) == 1 and not inside and not cond_before and one_line, 'C08.1a', 'R1', fn.site(before[0]) if before else fn.site(loop),
                f'{len(before)} header read(s) before the loop, {len(inside)} inside', 'exactly the header line is consumed before the data rows', 'exactly one unconditional readline() must precede the loop (and none inside): otherwise data rows are lost or the header is parsed as data')
-    # counter: the name incremented by 1 in the loop and used in the % test
-    sel = None
-    for n in loop.body:
-        if isinstance(n, ast.If) and any(isinstance(x, ast.Continue) for x in n.body) and '%' in ast.unparse(n.test):
-            sel = n
-    if sel is None:
-        # without subsampling test every row is consumed: acceptable only if no subsampling argument is read
+    if S.paths is None:
+        chk.unsure('C08.2', 'R14', fn.site(loop), 'streaming loop', 'too many tests in the loop body to evaluate one iteration path by path')
+        return
+    # -- 2 row selection: the decided subsampling tests of all paths
+    sub_tests = {}
+    for p in S.paths:
+        for t, truth, node in p.tests:
+            d = S.subsampling_decision(t, truth)
+            if d is not None:
+                sub_tests[id(node)] = (node, d[1])
+    if not sub_tests:
         chk.bad('C08.2', 'R14', fn.site(loop), 'if counter % args.subsampling != 0: continue', 'no row-selection guard on the subsampling factor was found in the loop')
-        counter = None
-    else:
-        t = term_of(fn, sel.test, inline=False)
-        counter = None
-        ok = False
-        if t[0] == 'cmp' and t[1] == '!=' and ('num', 0) in (t[2], t[3]):
-            mod = t[3] if t[2] == ('num', 0) else t[2]
-            if mod[0] == '%' and mod[1][0] == 'name' and mod[2] == E(f'{args}.subsampling'):
-                counter = mod[1][1]
-                ok = len(sel.body) == 1 and not sel.orelse
-        chk.expect(ok, 'C08.2', 'R14', fn.site(sel), ast.unparse(sel.test), 'rows whose 1-based position is not a multiple of the factor are skipped', f'row selection must be `counter % args.subsampling != 0 -> continue`; found {show(t)[:100]}')
-    if counter:
-        incs = [n for n in ast.walk(loop) if isinstance(n, ast.AugAssign) and isinstance(n.target, ast.Name) and n.target.id == counter]
-        inits = [n for n in own_nodes(fn.node) if isinstance(n, ast.Assign) and any(isinstance(tg, ast.Name) and tg.id == counter for tg in n.targets)]
-        first = next((s for s in loop.body if not is_noise_stmt(s)), None)
-        ok = len(incs) == 1 and incs[0] is first and isinstance(incs[0].op, ast.Add) and isinstance(incs[0].value, ast.Constant) and incs[0].value.value == 1 \
-            and len(inits) == 1 and isinstance(inits[0].value, ast.Constant) and inits[0].value.value == 0 and inits[0].lineno < loop.lineno
-        chk.expect(ok, 'C08.1b', 'R13', fn.site(incs[0]) if incs else fn.site(loop), f'{counter} = 0 ... {counter} += 1 (first statement of the loop)', 'the counter is the 1-based position of the row in the file', 'the row counter must start at 0 and be incremented by exactly 1 as the first action of every iteration (before any skip)')
+    for node, cnt in sub_tests.values():
+        # skip-paths end the iteration, keep-paths go on to the parser
+        skip_paths = [p for p in S.paths if any(S.subsampling_decision(t, tr) == ('skip', cnt) for t, tr, _ in p.tests)]
+        keep_paths = [p for p in S.paths if any(S.subsampling_decision(t, tr) == ('keep', cnt) for t, tr, _ in p.tests)]
+        ok_sel = bool(skip_paths) and bool(keep_paths) and all(p.res.ended in ('continue',) and not p.mentions(S.parse) for p in skip_paths) and all(p.mentions(S.parse) for p in keep_paths)
+        chk.expect(ok_sel, 'C08.2', 'R14', fn.site(node), ast.unparse(node)[:100], 'rows whose 1-based position is not a multiple of the factor are skipped', f'row selection must be `counter % args.subsampling != 0 -> continue` (skip the others, parse these); found test {ast.unparse(node)[:80]}')
+        # the counter is the 1-based position of the line
+        if S.enum_counter and cnt == ('name', S.enum_counter):
+            chk.expect(S.enum_start == 1, 'C08.1b', 'R13', fn.site(loop), ast.unparse(loop.iter), 'the counter is the 1-based position of the row in the file (enumerate from 1)', 'the row counter must start at 1 for the first data row (enumerate(stream, start=1))')
+        elif cnt[0] == '+' and len(cnt[1]) == 2 and ('num', 1) in cnt[1] and [x for x in cnt[1] if x[0] == 'name']:
+            cname = [x for x in cnt[1] if x[0] == 'name'][0][1]
+            incs = [n for n in ast.walk(loop) if isinstance(n, ast.AugAssign) and isinstance(n.target, ast.Name) and n.target.id == cname]
+            inits = [n for n in own_nodes(fn.node) if isinstance(n, (ast.Assign, ast.AnnAssign)) and any(isinstance(tg, ast.Name) and tg.id == cname for tg in (n.targets if isinstance(n, ast.Assign) else [n.target]))]
+            # incremented once, on every path, before the test (the test sees counter + 1 on every path that decides it)
+            every = all(any(S.subsampling_decision(t, tr) for t, tr, _ in p.tests) for p in S.paths if p.res.unknown is None)
+            ok = len(incs) == 1 and isinstance(incs[0].op, ast.Add) and len(inits) == 1 and isinstance(inits[0].value, ast.Constant) and inits[0].value.value == 0 and inits[0].lineno < loop.lineno and every
+            chk.expect(ok, 'C08.1b', 'R13', fn.site(incs[0]) if incs else fn.site(loop), f'{cname} = 0 ... {cname} += 1 (before the selection test)', 'the counter is the 1-based position of the row in the file', 'the row counter must start at 0 and be incremented by exactly 1 in every iteration before the selection test (before any skip)')
+        else:
+            chk.bad('C08.1b', 'R13', fn.site(node), ast.unparse(node)[:100], f'the selection test does not look at the 1-based position of the line (a counter incremented before the test, or enumerate from 1); it tests {show(cnt)[:80]}')
 
     # -- 3 validity gate and buffer hygiene
     buffers = field_count_gate(repo, chk, 'C08.3')
@@ -80,90 +89,124 @@ def run(repo, chk, tier):
         chk.unsure('C08.3b', 'R13', fn.site(loop), 'row buffer', 'cannot identify the row buffer')
         return
     buf = next(iter(buffers))
-    # the else side counts the row as invalid
-    gate = None
-    for n in ast.walk(loop):
-        if isinstance(n, ast.If) and any(isinstance(c, ast.Call) and isinstance(c.func, ast.Attribute) and c.func.attr == 'append' and isinstance(c.func.value, ast.Name) and c.func.value.id == buf for s in n.body for c in ast.walk(s)):
-            gate = n
-    inv_ok = gate is not None and any(isinstance(x, ast.AugAssign) and isinstance(x.op, ast.Add) and isinstance(x.value, ast.Constant) and x.value.value == 1 for s in gate.orelse for x in ast.walk(s))
-    chk.expect(inv_ok, 'C08.3c', 'R13', fn.site(gate) if gate is not None else fn.site(loop), 'else: invalid_lines += 1', 'rows with a wrong field count are counted', 'a row with a wrong field count must be counted as invalid (and skipped)')
     bad_ops = []
     for n in own_nodes(fn.node):
         if isinstance(n, ast.Call) and isinstance(n.func, ast.Attribute) and isinstance(n.func.value, ast.Name) and n.func.value.id == buf and n.func.attr in ('sort', 'reverse', 'pop', 'remove', 'insert', 'extend', 'clear'):
-            bad_ops.append(n)
+            if not (n.func.attr == 'clear' and not n.args):
+                bad_ops.append(n)
         if isinstance(n, ast.Call) and any(isinstance(a, ast.Name) and a.id == buf for a in n.args) and m.dotted(n.func) in ('random.shuffle', 'numpy.random.shuffle', 'sorted', 'reversed'):
             bad_ops.append(n)
     chk.expect(not bad_ops, 'C08.3d', 'R11', fn.site(bad_ops[0]) if bad_ops else fn.site(loop), ast.unparse(bad_ops[0]) if bad_ops else f'{buf}: append only', 'rows stay in file order', 'the row buffer is reordered or edited: batches no longer hold consecutive rows in file order')
 
-    # -- 4 batch trigger and the path back to the loop head
-    bcalls = [n for n in own_nodes(fn.node) if isinstance(n, ast.Assign) and isinstance(n.value, ast.Call) and m.dotted(n.value.func) == f'{CR}.compute_batch_ranking']
-    in_loop = [b for b in bcalls if any(x is b for x in ast.walk(loop))]
-    tail = [b for b in bcalls if b not in in_loop and b.lineno > loop.end_lineno]
-    if len(in_loop) != 1:
-        chk.bad('C08.4a', 'R14', fn.site(loop), 'compute_batch_ranking(buffer, ...) in the loop', f'{len(in_loop)} batch evaluations inside the streaming loop (expected one)')
+    # -- 4 batch trigger: on the paths of one iteration
+    BATCH = f'{CR}.compute_batch_ranking'
+    CKPT = f'{CR}.checkpoint_importances_df'
+
+    def batch_calls(p):
+        pools = [t for t, _ in p.calls] + [term_of(fn, v, inline=True) for v in (p.res.env or {}).values() if v is not None]
+        out = []
+        for pool in pools:
+            for x in walk_term(pool):
+                if isinstance(x, tuple) and x[:2] == ('call', ('lib', BATCH)) and x not in out:
+                    out.append(x)
+        return out
+    trig_seen = {True: 0, False: 0}
+    acc_names = set()
+    problems = {}
+    for p in S.paths:
+        if p.res.unknown is not None:
+            continue
+        bcs = batch_calls(p)
+        decided = [S.trigger_decision(t, tr, buf) for t, tr, _ in p.tests]
+        decided = [d for d in decided if d is not None]
+        if not decided:
+            # a path without the trigger test: must not score a batch (e.g. the skipped-line path)
+            if bcs:
+                other = [n for t, tr, n in p.tests if S.subsampling_decision(t, tr) is None and S.field_count_decision(t, tr) is None]
+                if any(any(x == ('name', buf) for x in walk_term(t)) for t, tr, n in p.tests if S.subsampling_decision(t, tr) is None and S.field_count_decision(t, tr) is None):
+                    problems.setdefault('C08.4a', (other[0] if other else loop, f'the batch trigger must be exactly `len(buffer) >= args.minibatch_size`; found {[ast.unparse(n)[:60] for n in other]}'))
+                else:
+                    problems.setdefault('C08.4a', (loop, 'a batch is scored on a path that never tests the size of the buffer against args.minibatch_size'))
+            continue
+        trig = decided[0]
+        trig_seen[trig] += 1
+        if not trig:
+            if bcs:
+                problems.setdefault('C08.4a', (loop, 'a batch is scored although the buffer holds fewer than args.minibatch_size rows'))
+            continue
+        if len(bcs) != 1:
+            problems.setdefault('C08.4a', (loop, f'{len(bcs)} batch evaluations on the path where the buffer is full (expected one)'))
+            continue
+        bc = bcs[0]
+        if not (bc[2] and bc[2][0] == ('name', buf)):
+            problems.setdefault('C08.4b', (loop, f'the batch evaluated must be the row buffer itself (all accepted rows, in order); found {show(bc[2][0])[:80] if bc[2] else None}'))
+        env = p.res.env or {}
+        # buffer reset
+        bv = env.get(buf)
+        cleared = any(isinstance(c['call'].func, ast.Attribute) and c['call'].func.attr == 'clear' and isinstance(c['call'].func.value, ast.Name) and c['call'].func.value.id == buf for _, c in p.calls)
+        if not ((isinstance(bv, ast.List) and not bv.elts) or (isinstance(bv, ast.Call) and ast.unparse(bv) == 'list()') or cleared):
+            problems.setdefault('C08.4d', (loop, 'after a batch is scored the row buffer is not reset on every path back to the loop head: rows are scored again in the next batch'))
+        # accumulation: some name becomes <name> + <batch>.triplet_scores   (or .extend(...))
+        trip = ('attr', ('sub', bc, ('num', 0)), 'triplet_scores')
+        trip_alt = [('attr', bc, 'triplet_scores')]
+        accs = []
+        for k, v in env.items():
+            if v is None:
+                continue
+            t = term_of(fn, v, inline=True)
+            if t[0] == '+' and ('name', k) in t[1] and (trip in t[1] or any(a in t[1] for a in trip_alt)) and len(t[1]) == 2:
+                accs.append(k)
+        for t, c in p.calls:
+            if isinstance(c['call'].func, ast.Attribute) and c['call'].func.attr == 'extend' and isinstance(c['call'].func.value, ast.Name) and t[2] and (t[2][0] == trip or t[2][0] in trip_alt):
+                accs.append(c['call'].func.value.id)
+        if len(accs) != 1:
+            problems.setdefault('C08.4c', (loop, 'the triplets of a scored batch are not accumulated (exactly once) into the list of all per-batch triplets'))
+            continue
+        acc = accs[0]
+        acc_names.add(acc)
+        # checkpoint after accumulation, unless the heuristic is Constant
+        const_dec = [(t, tr) for t, tr, _ in p.tests if t in (E(f"{args}.heuristic != 'Constant'"), E(f"{args}.heuristic == 'Constant'"))]
+        is_const = any((t[1] == '==') == tr for t, tr in const_dec) if const_dec else None
+        cks = [(t, c) for t, c in p.calls if t[:2] == ('call', ('lib', CKPT))]
+        acc_after = term_of(fn, env[acc], inline=True) if env.get(acc) is not None else None
+        extended = any(isinstance(c['call'].func, ast.Attribute) and c['call'].func.attr == 'extend' and isinstance(c['call'].func.value, ast.Name) and c['call'].func.value.id == acc for _, c in p.calls)
+        good_ck = [1 for t, c in cks if t[2] and (t[2][0] == acc_after or (extended and t[2][0] == ('name', acc) and c['seq'] > max(cc['seq'] for _, cc in p.calls if isinstance(cc['call'].func, ast.Attribute) and cc['call'].func.attr == 'extend')))]
+        if is_const:
+            continue
+        if not good_ck:
+            stale = bool(cks)
+            problems.setdefault('C08.4e', (cks[0][1]['node'] if cks else loop, 'a path from the batch call to the loop head ' + ('checkpoints something else than the accumulator extended by this batch (e.g. before accumulating): the on-disk checkpoint lags behind the processed batches' if stale else 'does not checkpoint the accumulator after accumulating: the on-disk checkpoint lags behind the processed batches')))
+    if trig_seen[True] == 0 and 'C08.4a' not in problems:
+        bc_any = [n for n in ast.walk(loop) if isinstance(n, ast.Call) and m.dotted(n.func) == BATCH]
+        if not bc_any:
+            problems['C08.4a'] = (loop, '0 batch evaluations inside the streaming loop (expected one)')
+        else:
+            tests = sorted({ast.unparse(n)[:70] for p in S.paths for t, tr, n in p.tests if S.subsampling_decision(t, tr) is None and S.field_count_decision(t, tr) is None and any(x == ('name', buf) for x in walk_term(t))})
+            problems['C08.4a'] = (bc_any[0], f'the batch trigger must be exactly `len(buffer) >= args.minibatch_size`; found {tests}')
+    for oid, good in (('C08.4a', 'a batch is scored exactly when the buffer holds minibatch_size rows'), ('C08.4b', 'the batch is the row buffer'), ('C08.4c', 'the triplets of every scored batch are accumulated'),
+                      ('C08.4d', 'the buffer is emptied after every scored batch (no row is scored twice)'), ('C08.4e', 'every scored batch is accumulated, then the checkpoint is rewritten from the accumulator')):
+        if oid in problems:
+            node, why = problems[oid]
+            chk.bad(oid, 'R1' if oid in ('C08.4d', 'C08.4e', 'C08.4c') else 'R14', fn.site(node), ast.unparse(node).replace('\n', ' ')[:100], why)
+        else:
+            chk.ok(oid, 'R1' if oid in ('C08.4d', 'C08.4e', 'C08.4c') else 'R14', fn.site(loop), f'{trig_seen[True]} full-buffer path(s), {trig_seen[False]} other', good)
+    if len(acc_names) != 1:
+        if 'C08.4c' not in problems:
+            chk.unsure('C08.6a', 'R13', fn.site(loop), 'accumulator', 'cannot identify the accumulator of per-batch triplets')
         return
-    bc = in_loop[0]
-    bnode = cfg.node_of(bc)
-    a0 = bc.value.args[0] if bc.value.args else None
-    chk.expect(isinstance(a0, ast.Name) and a0.id == buf, 'C08.4b', 'R6', fn.site(bc), ast.unparse(bc.value.func) + f'({ast.unparse(a0) if a0 is not None else ""}, ...)', 'the batch is the row buffer', 'the batch evaluated must be the row buffer itself (all accepted rows, in order)')
-    trig = [g for g in cfg.nodes if g.kind == 'branch' and g.test is not None and isinstance(g.ast, ast.If) and cfg.dominates(g.id, bnode.id) and any(x is g.ast for x in ast.walk(loop)) and g.ast is not sel]
-    skips = [x for x in ast.walk(loop) if isinstance(x, (ast.Continue, ast.Break))]
-    sel_skips = [x for x in ast.walk(sel) if isinstance(x, ast.Continue)] if sel is not None else []
-    extra_skips = [x for x in skips if x not in sel_skips]
-    chk.expect(not extra_skips, 'C08.2b', 'R1', fn.site(extra_skips[0]) if extra_skips else fn.site(loop), f'{len(skips)} continue/break in the loop', 'no row is skipped other than by the subsampling rule',
-               'the loop skips rows (continue/break) other than by the subsampling rule: selected well-formed rows are not all consumed')
-    tt = [(term_of(fn, g.test, inline=False), g.polarity) for g in trig]
-    want = E(f'{args}.minibatch_size <= len({buf})')
-    ok = (want, True) in tt and len(trig) == 1
-    chk.expect(ok, 'C08.4a', 'R14', fn.site(trig[0].ast) if trig else fn.site(bc), ' and '.join(ast.unparse(g.test) for g in trig) or '(unconditional)', 'a batch is scored exactly when the buffer holds minibatch_size rows',
-               f'the batch trigger must be exactly `len(buffer) >= args.minibatch_size`; found {[(show(t), p) for t, p in tt]}')
-    summary = bc.targets[0].elts[0].id if isinstance(bc.targets[0], ast.Tuple) and isinstance(bc.targets[0].elts[0], ast.Name) else (bc.targets[0].id if isinstance(bc.targets[0], ast.Name) else None)
-    acc = _accumulator(fn, summary)
-    if acc is None:
-        chk.bad('C08.4c', 'R1', fn.site(bc), f'<accumulator> += {summary}.triplet_scores', 'the triplets of a scored batch are not accumulated')
-        return
-    head = next(n for n in cfg.nodes if n.kind == 'for' and n.ast is loop)
-
-    def is_reset(n):
-        s = n.ast
-        return n.kind == 'stmt' and isinstance(s, ast.Assign) and any(isinstance(t, ast.Name) and t.id == buf for t in s.targets) and ((isinstance(s.value, ast.List) and not s.value.elts) or ast.unparse(s.value) in ('list()', '[]'))
-
-    def is_clear(n):
-        s = n.ast
-        return n.kind == 'stmt' and isinstance(s, ast.Expr) and isinstance(s.value, ast.Call) and ast.unparse(s.value) == f'{buf}.clear()'
-
-    def is_acc(n):
-        s = n.ast
-        if n.kind != 'stmt':
-            return False
-        if isinstance(s, ast.AugAssign) and isinstance(s.op, ast.Add) and isinstance(s.target, ast.Name) and s.target.id == acc and ast.unparse(s.value) == f'{summary}.triplet_scores':
-            return True
-        return isinstance(s, ast.Expr) and isinstance(s.value, ast.Call) and ast.unparse(s.value) == f'{acc}.extend({summary}.triplet_scores)'
-
-    def is_ckpt(n):
-        s = n.ast
-        if n.kind == 'branch' and n.test is not None and n.polarity is False and term_of(fn, n.test, inline=False) == E(f"{args}.heuristic != 'Constant'"):
-            return True   # exemption: Constant
-        if n.kind == 'branch' and n.test is not None and n.polarity is True and term_of(fn, n.test, inline=False) == E(f"{args}.heuristic == 'Constant'"):
-            return True
-        return n.kind == 'stmt' and isinstance(s, ast.Expr) and isinstance(s.value, ast.Call) and m.dotted(s.value.func) == f'{CR}.checkpoint_importances_df' and len(s.value.args) == 1 and ast.unparse(s.value.args[0]) == acc
-
-    ok_reset = cfg.must_pass(bnode.id, [head.id, cfg.exit.id], lambda n: is_reset(n) or is_clear(n))
-    chk.expect(ok_reset, 'C08.4d', 'R1', fn.site(bc), f'{buf} = [] on every path from the batch call to the next line', 'the buffer is emptied after every scored batch (no row is scored twice)',
-               'after a batch is scored the row buffer is not reset on every path back to the loop head: rows are scored again in the next batch')
-    ok_ord, stage = cfg.must_pass_ordered(bnode.id, [head.id, cfg.exit.id], [is_acc, is_ckpt])
-    chk.expect(ok_ord, 'C08.4e', 'R1', fn.site(bc), f'{acc} += {summary}.triplet_scores ; checkpoint_importances_df({acc})', 'every scored batch is accumulated, then the checkpoint is rewritten from the accumulator',
-               ('a path from the batch call to the loop head ' + ('does not accumulate the batch\'s triplets' if stage == 0 else 'does not checkpoint the accumulator after accumulating (or checkpoints before accumulating): the on-disk checkpoint lags behind the processed batches')))
+    acc = next(iter(acc_names))
 
     # -- 6 accumulator discipline
     rebinds = [n for n in own_nodes(fn.node) if isinstance(n, (ast.Assign, ast.AnnAssign)) and any(isinstance(t, ast.Name) and t.id == acc for t in (n.targets if isinstance(n, ast.Assign) else [n.target]))]
     init_ok = len(rebinds) == 1 and rebinds[0].lineno < loop.lineno and isinstance(rebinds[0].value, ast.List) and not rebinds[0].value.elts
-    others = [n for n in own_nodes(fn.node) if (isinstance(n, ast.AugAssign) and isinstance(n.target, ast.Name) and n.target.id == acc and ast.unparse(n.value) != f'{summary}.triplet_scores')
+    others = [n for n in own_nodes(fn.node) if (isinstance(n, ast.AugAssign) and isinstance(n.target, ast.Name) and n.target.id == acc and not ast.unparse(n.value).endswith('.triplet_scores'))
               or (isinstance(n, ast.Call) and isinstance(n.func, ast.Attribute) and isinstance(n.func.value, ast.Name) and n.func.value.id == acc and n.func.attr in ('clear', 'pop', 'remove', 'sort', 'insert', 'append'))]
     chk.expect(init_ok and not others, 'C08.6a', 'R13', fn.site(rebinds[-1]) if rebinds else fn.site(), f'{acc}: initialised once to [], only extended by a batch\'s triplets',
                'the accumulator holds the raw per-batch scores of all batches', 'the accumulator of per-batch triplets is re-bound or edited (e.g. replaced by its aggregation): the final score is no longer the median of the per-batch scores')
 
     # -- 5 tail
+    bcalls = [n for n in own_nodes(fn.node) if isinstance(n, ast.Assign) and isinstance(n.value, ast.Call) and m.dotted(n.value.func) == BATCH]
+    tail = [b for b in bcalls if not any(x is b for x in ast.walk(loop)) and b.lineno > loop.end_lineno]
     tail_rule(repo, chk, fn, cfg, loop, buf, acc, tail, E, args)
 
     # -- 6 aggregator
